@@ -53,3 +53,20 @@ Print Assumptions C08_restart_is_revote_partial.
 Print Assumptions C08_restart_keeps_databases_partial.
 Print Assumptions C08_restart_state_shape_partial.
 Print Assumptions C08_bootstrap_blocks_partial.
+
+(* ---- appended by the coordinator from worker `link`'s development (proofs/LinkRawRestart.v) ----
+   Restarts (Bootstrap from the persisted fields) inserted before arbitrary events of a valid
+   single-epoch run are invisible: the rendered observations (accept/reject codes, built frames,
+   blocks with Atropos and cheaters) equal those of the never-restarted run and of the reference,
+   and every restart itself reports no error, emits no block and keeps the epoch.
+   [rs] says before which events a restart happens (any subset of the event boundaries). *)
+From LV Require proofs.LinkDefs proofs.LinkRaw proofs.LinkRestart proofs.LinkRawRestart.
+Theorem C08_restart_invisible_on_valid_runs :
+  forall cap lam (rs : list bool) vals D, length rs = length D ->
+  proofs.LinkRaw.link_side_raw vals D -> proofs.BftProps.valid_run vals D ->
+  proofs.LinkRestart.abft_run_r cap lam rs vals D = spec.ElectionSpec.reference vals D /\
+  proofs.LinkRestart.abft_run_r cap lam rs vals D = proofs.LinkDefs.abft_run cap lam vals D /\
+  Forall proofs.LinkRestart.clean_restart
+    (model.AbftRun.run cap [] model.Abft.sample (model.AbftRun.start 1 vals) (proofs.LinkRestart.abft_ops_r lam vals rs D)).
+Proof. exact proofs.LinkRawRestart.link_restart_raw. Qed.
+Print Assumptions C08_restart_invisible_on_valid_runs.
